@@ -169,10 +169,12 @@ func runC16(c *Ctx) {
 			url := get.Common().Args[0]
 			// find the GCETcbURL call(s) feeding the URL
 			var nameArgs []ssa.Value
+			urlCallOf := map[ssa.Value]*ssa.Call{}
 			lsl := flow.NewSlicer(c.P)
 			lsl.Visit(url, func(v ssa.Value) bool {
 				if call, ok := v.(*ssa.Call); ok && call.Call.StaticCallee() == urlFn {
 					nameArgs = append(nameArgs, call.Call.Args[0])
+					urlCallOf[call.Call.Args[0]] = call
 					return false
 				}
 				return true
@@ -225,7 +227,12 @@ func runC16(c *Ctx) {
 						if k.Value == nil || k.Value.Kind() != constant.String {
 							continue
 						}
+						// the test may stand in front of the fetch, or in front of the place the URL is made from the name
+						// (a helper that refuses the empty name and hands out the URL)
 						ok := nonEmptyGuarded(get.Block(), na)
+						if uc := urlCallOf[na]; uc != nil && !ok {
+							ok = nonEmptyGuarded(uc.Block(), na)
+						}
 						c.S.Check(ok, "R2", gname+":constant object name "+fmt.Sprintf("%q", constant.StringVal(k.Value)), c.pos(get.Pos()), "fetch is behind objectName != \"\"", "the fetch can be issued with the placeholder object name "+fmt.Sprintf("%q", constant.StringVal(k.Value))+" (bucket root): whatever comes back is returned as the endorsement")
 					default:
 						c.S.Bad("R2", gname+":object name origin", c.pos(get.Pos()), "the object name fetched is not derived from GCETcbObjectName of a measurement: "+o.v.String())
@@ -996,6 +1003,117 @@ func c16OptionalSourcesTested(c *Ctx) {
 		return namedIs(t, "github.com/google/go-sev-guest/verify/trust", "HTTPSGetter") || namedIs(t, repoPath("verify"), "HTTPSGetter") || namedIs(t, repoPath("extract/eventlog"), "VariableReader") || namedIs(t, repoPath("extract"), "QuoteProvider")
 	}
 	lib := map[string]bool{"extract": true, "extract/eventlog": true, "verify": true, "gcetcbendorsement": true}
+	// fieldLoad: v is a load of an optional-source field; returns the object and the field
+	fieldLoad := func(v ssa.Value) (*ssa.FieldAddr, bool) {
+		ld, ok := v.(*ssa.UnOp)
+		if !ok || ld.Op != token.MUL {
+			return nil, false
+		}
+		fa, ok := ld.X.(*ssa.FieldAddr)
+		if !ok || !isOptionalSource(v.Type()) {
+			return nil, false
+		}
+		return fa, true
+	}
+	// nonNilAt: block b is dominated by the non-nil edge of a nil test of field `field` of object obj
+	nonNilAt := func(b *ssa.BasicBlock, obj ssa.Value, field int) bool {
+		for _, cf := range dominatingConds(b) {
+			bo, ok := cf.Cond.(*ssa.BinOp)
+			if !ok || (bo.Op != token.EQL && bo.Op != token.NEQ) || !isNilK(bo.Y) {
+				continue
+			}
+			fa2, ok := fieldLoad(bo.X)
+			if !ok || fa2.Field != field || !samePointerValue(fa2.X, obj) {
+				continue
+			}
+			if (bo.Op == token.NEQ) == cf.Val {
+				return true
+			}
+		}
+		return false
+	}
+	// A guard helper tests the field for its caller: h is handed the options object as parameter pi, and each of
+	// its successful returns (nil error / true flag) stands behind the non-nil edge of the test of that field — or its
+	// flag result is that very test. guardOf reports which result index signals success (error or bool) for (h, pi, field).
+	type guardKey struct {
+		h     *ssa.Function
+		pi    int
+		field int
+	}
+	guardMemo := map[guardKey]int{}
+	guardOf := func(h *ssa.Function, pi, field int) int {
+		k := guardKey{h, pi, field}
+		if v, ok := guardMemo[k]; ok {
+			return v
+		}
+		guardMemo[k] = -1
+		if h == nil || h.Blocks == nil || !load.FuncInRepo(h) || pi >= len(h.Params) {
+			return -1
+		}
+		obj := ssa.Value(h.Params[pi])
+		res := h.Signature.Results()
+		si := errIndex(h.Signature)
+		isBool := false
+		if si < 0 && res.Len() >= 1 && res.At(res.Len()-1).Type().String() == "bool" {
+			si, isBool = res.Len()-1, true
+		}
+		if si < 0 {
+			return -1
+		}
+		nOK := 0
+		for _, b := range h.Blocks {
+			ret, ok := b.Instrs[len(b.Instrs)-1].(*ssa.Return)
+			if !ok {
+				continue
+			}
+			v := ret.Results[si]
+			if isBool {
+				if k, isK := v.(*ssa.Const); isK && k.Value != nil && !constant.BoolVal(k.Value) {
+					continue // refusal
+				}
+				if bo, isB := v.(*ssa.BinOp); isB && bo.Op == token.NEQ && isNilK(bo.Y) {
+					if fa2, ok := fieldLoad(bo.X); ok && fa2.Field == field && samePointerValue(fa2.X, obj) {
+						nOK++
+						continue // the flag is the test itself
+					}
+				}
+			} else if !isNilK(v) {
+				continue // refusal (or an error handed on)
+			}
+			if !nonNilAt(b, obj, field) {
+				return -1
+			}
+			nOK++
+		}
+		if nOK == 0 {
+			return -1
+		}
+		guardMemo[k] = si
+		return si
+	}
+	// succeededAt: block b is dominated by the success edge of call (result si: nil error / true flag)
+	succeededAt := func(b *ssa.BasicBlock, call *ssa.Call, si int) bool {
+		single := call.Call.Signature().Results().Len() == 1
+		for _, cf := range dominatingConds(b) {
+			var v ssa.Value = cf.Cond
+			want := true
+			if bo, ok := cf.Cond.(*ssa.BinOp); ok && (bo.Op == token.EQL || bo.Op == token.NEQ) && isNilK(bo.Y) {
+				v = bo.X
+				want = bo.Op == token.EQL // err == nil
+			}
+			hit := false
+			if ex, ok := v.(*ssa.Extract); ok && ex.Tuple == ssa.Value(call) && ex.Index == si {
+				hit = true
+			}
+			if single && v == ssa.Value(call) {
+				hit = true
+			}
+			if hit && cf.Val == want {
+				return true
+			}
+		}
+		return false
+	}
 	n := 0
 	for _, f := range c.P.RepoFunctions() {
 		if !lib[load.RelPkg(f)] || c.isTestFunc(f) || f.Blocks == nil {
@@ -1009,43 +1127,105 @@ func c16OptionalSourcesTested(c *Ctx) {
 					continue
 				}
 				recv := call.Common().Value
-				ld, ok := recv.(*ssa.UnOp)
-				if !ok || ld.Op != token.MUL {
-					continue
-				}
-				fa, ok := ld.X.(*ssa.FieldAddr)
-				if !ok {
-					continue
-				}
-				// a field of an options value the function was handed (parameter, receiver or captured variable)
-				if !ownsValue(fa.X, f) {
-					continue
-				}
 				if !isOptionalSource(recv.Type()) {
 					continue
 				}
-				field := flow.FieldName(fa)
-				n++
-				perField[field]++
-				// dominated by the non-nil edge of a nil test of a load of the same field of the same object
+				var field string
 				tested := false
-				for _, cf := range dominatingConds(b) {
-					bo, ok := cf.Cond.(*ssa.BinOp)
-					if !ok || (bo.Op != token.EQL && bo.Op != token.NEQ) || !isNilK(bo.Y) {
+				if fa, ok := fieldLoad(recv); ok {
+					// a field of an options value the function was handed (parameter, receiver or captured variable)
+					if !ownsValue(fa.X, f) {
 						continue
 					}
-					l2, ok := bo.X.(*ssa.UnOp)
-					if !ok || l2.Op != token.MUL {
+					field = flow.FieldName(fa)
+					tested = nonNilAt(b, fa.X, fa.Field)
+					// or a helper that was handed the same options made the test and succeeded
+					if !tested {
+						for _, hc := range callsIn(f, func(ssa.CallInstruction) bool { return true }) {
+							hcv, ok := hc.(*ssa.Call)
+							if !ok {
+								continue
+							}
+							h := hcv.Call.StaticCallee()
+							if h == nil || !load.FuncInRepo(h) {
+								continue
+							}
+							for pi, a := range hcv.Call.Args {
+								if !samePointerValue(a, fa.X) {
+									continue
+								}
+								if si := guardOf(h, pi, fa.Field); si >= 0 && succeededAt(b, hcv, si) {
+									tested = true
+								}
+							}
+						}
+					}
+					// or every caller of this unexported helper made the test for the object it passes
+					if prm, isP := fa.X.(*ssa.Parameter); isP && !tested && f.Object() != nil && !f.Object().Exported() {
+						pi := -1
+						for i, q := range f.Params {
+							if q == prm {
+								pi = i
+							}
+						}
+						if node := c.P.CallGraph().Nodes[f]; node != nil && pi >= 0 {
+							sites, all := 0, true
+							for _, e := range node.In {
+								if e.Site == nil || c.isTestFunc(e.Caller.Func) {
+									continue
+								}
+								if e.Site.Common().StaticCallee() != f || pi >= len(e.Site.Common().Args) {
+									all = false
+									continue
+								}
+								sites++
+								if !nonNilAt(e.Site.Block(), e.Site.Common().Args[pi], fa.Field) {
+									all = false
+								}
+							}
+							tested = all && sites > 0
+						}
+					}
+				} else {
+					// the source as handed out by an accessor of the options: result i of a guard helper that, where it
+					// succeeds, returns that field
+					src, idx := recv, 0
+					if ex, ok := src.(*ssa.Extract); ok {
+						src, idx = ex.Tuple, ex.Index
+					}
+					hcv, ok := src.(*ssa.Call)
+					if !ok {
 						continue
 					}
-					fa2, ok := l2.X.(*ssa.FieldAddr)
-					if !ok || fa2.Field != fa.Field || !samePointerValue(fa2.X, fa.X) {
+					h := hcv.Call.StaticCallee()
+					if h == nil || !load.FuncInRepo(h) || h.Blocks == nil {
 						continue
 					}
-					if (bo.Op == token.NEQ) == cf.Val {
+					// which field of which parameter does result idx carry?
+					pi, fi := -1, -1
+					for _, hb := range h.Blocks {
+						ret, ok := hb.Instrs[len(hb.Instrs)-1].(*ssa.Return)
+						if !ok || idx >= len(ret.Results) {
+							continue
+						}
+						if fa, ok := fieldLoad(ret.Results[idx]); ok {
+							for i, p := range h.Params {
+								if samePointerValue(fa.X, p) {
+									pi, fi = i, fa.Field
+									field = flow.FieldName(fa)
+								}
+							}
+						}
+					}
+					if pi < 0 || pi >= len(hcv.Call.Args) || !ownsValue(hcv.Call.Args[pi], f) {
+						continue
+					}
+					if si := guardOf(h, pi, fi); si >= 0 && succeededAt(b, hcv, si) {
 						tested = true
 					}
 				}
+				n++
+				perField[field]++
 				construct := fmt.Sprintf("%s:%s.%s", load.FuncName(f), field, call.Common().Method.Name())
 				if perField[field] > 1 {
 					construct = fmt.Sprintf("%s #%d", construct, perField[field])
